@@ -7,6 +7,7 @@ import DracoProofs.EbCoverage
 import DracoProofs.EbConnExample
 import DracoProofs.EbCountsRun
 import DracoProofs.EbCountsStream
+import DracoProofs.EbCountsExample
 /-
   C09 for Edgebreaker, on the CORNER-TABLE models (DracoModel/EbConnectivity.lean `assignPoints`,
   DracoModel/EbEncoder.lean `computeNumberOfEncodedPoints`): closes, on the decoder's side, the gap of DracoProps/C09.lean
@@ -394,6 +395,35 @@ example : exEnc.numEncodedPoints = ConnExample.exMesh.numPoints ∧ exEnc.numEnc
       obtain rfl | rfl | rfl : v = 0 ∨ v = 1 ∨ v = 2 := by omega
       all_goals exact ⟨1, by decide +kernel⟩)
     (by decide +kernel)
+
+open Draco.EbEnc.CountsIso Draco.EbEnc.EncCounts Draco.EbEnc.AttViews Draco.EbEnc.Seams in
+/-- **C09 at the level of the REPORTED counts, more than one attribute**: `enc.numEncodedPoints` / `enc.numEncodedFaces` equal
+    `mesh.numPoints` / `mesh.numFaces` of a mesh `decodeConnectivity` returned (`hst`), given the connectivity link (`hn`, `hiso`),
+    the SEAM link `hlink` (the decoder's attribute connectivity data carry the encoder's seam edge flags under the corner map —
+    index-wise over `attribute_data_`; `ConnGlueAtt.link_of_loop_att'` concludes exactly this), and the decoder-side table
+    facts (`hdec`, `hszc`, `hhole`).  The encoder counts only on the attribute tables of the controllers that encode on their
+    attribute table (interior seams), the decoder on all attribute data: aligned along the index map `sigmaOf enc`
+    (`EbCountsAlign*.lean`: a decoder table without interior seams is constant on every fan; `noInt_transfer`; `hoff_of_run`). -/
+theorem eb_encoded_counts_of_link {ch : EbChoices} {g : Geometry} {md : Option GeometryMetadata} {o : EbOpts}
+    {enc : Encoded} (henc : encodeEdgebreaker ch g md o = .ok enc)
+    {mesh : Mesh} {co : ConnOut} (hst : DecStagesOf mesh co) (ψ : Nat → Nat)
+    (hatts : g.atts.length > 1)
+    (hne : mesh.atts.isEmpty = false)
+    (hn : mesh.numFaces = enc.conn.processed.size)
+    (hiso : TVIso (baseViewD mesh.numFaces co.c2v co.opp co.vc) enc.conn.ct.view (phi enc.conn.processed) ψ)
+    (hdec : APHyp mesh.numFaces co) (hszc : co.c2v.size = 3 * mesh.numFaces)
+    (hhole : ∀ v, v < co.vc.size → co.vc[v]! ≠ inv → co.hole[v]! = true → ∃ k, iter (sRP co.opp) k co.vc[v]! = inv)
+    (hlink : SeamLink mesh.numFaces mesh.atts (enc.conn.atts.map (·.conn)) (phi enc.conn.processed)) :
+    enc.numEncodedPoints = mesh.numPoints ∧ enc.numEncodedFaces = mesh.numFaces :=
+  CountsIso.eb_encoded_counts_of_link''' henc hst ψ hatts hne hn hiso hdec hszc hhole hlink
+
+open Draco.EbEnc.CountsExample in
+/-- non-vacuity: two triangles sharing an edge, a POSITION attribute and a GENERIC attribute with different values across
+    the shared edge (an interior seam: the second controller encodes on its attribute table); the encoder's run and every
+    decoder stage are the models' own, evaluated by the kernel (DracoProofs/EbCountsExample.lean): 6 = 6 points, 2 = 2 faces -/
+example : exEnc2.numEncodedPoints = exMesh2.numPoints ∧ exEnc2.numEncodedFaces = exMesh2.numFaces :=
+  eb_encoded_counts_of_link exEncode2 exStages2 exPsi2 (by decide) (by decide +kernel) (by decide +kernel)
+    exIso2 exAPHyp2 (by decide +kernel) exHole2 exSeamLink2
 
 open Draco.EbEnc.EncCounts in
 /-- **C09, faces, Edgebreaker (encoder side), unconditional.**  After a successful `encodeEdgebreaker` the reported
